@@ -699,6 +699,127 @@ func vfC27ReturnToAlphabet() vfC27Alpha {
 	}
 }
 
+// vfC27RunFlow drives one complete browser login on srv for the page request `target`
+// (path?rawquery exactly as sent; returnTo is the decoded _vgi_return_to it carries, "" if none):
+// step 0 already-authenticated visit, step 1 unauthenticated page GET, step 2 callback.
+// Besides the Location oracle it checks that the session cookie set in step 1 carries exactly
+// this request's own data (what the callback will later act on).
+func vfC27RunFlow(x *venum.X, site string, srv *vfC27Srv, target, returnTo string) (earlyStatus int, k0, k2, loc2 string, ok bool) {
+	prefix := srv.prefix
+	// step 0: already-authenticated visitor (auth cookie) with the same query
+	early := srv.get(x, target, "Accept", "text/html", "Cookie", authCookieName+"="+vfC27Token)
+	if early == nil {
+		return
+	}
+	k0 = srv.checkLocation(x, "early-redirect", early, early.StatusCode/100 == 3)
+
+	// step 1: unauthenticated browser GET → redirect to the IdP with a session cookie
+	r1 := srv.get(x, target, "Accept", "text/html")
+	if r1 == nil {
+		return
+	}
+	loc1 := r1.Header.Get("Location")
+	cookie, okCookie := vfC27SessionCookie(r1)
+	if r1.StatusCode != http.StatusFound || !strings.HasPrefix(loc1, vfC27AuthEP+"?") || !okCookie {
+		x.Failf("C27:"+site+":page-did-not-start-login", "GET %q: status %d Location %q cookie=%v", vfC27Clip(target), r1.StatusCode, loc1, okCookie)
+		return
+	}
+	srv.checkLocation(x, "login-redirect", r1, false)
+	au, err := url.Parse(loc1)
+	if err != nil {
+		x.Failf("C27:"+site+":authorize-url-unparseable", "%q: %v", loc1, err)
+		return
+	}
+	state := au.Query().Get("state")
+
+	// the cookie the server just set must say what this request said
+	cv, st, ou, rt, uerr := unpackOAuthCookie(cookie, srv.h.pkce.sessionKey, 0)
+	fallback := prefix
+	if fallback == "" {
+		fallback = "/"
+	}
+	sum := sha256.Sum256([]byte(cv))
+	switch {
+	case uerr != nil:
+		x.Failf("C27:"+site+":session-cookie:unreadable", "the cookie the server set does not unpack: %v (request target %d bytes)", uerr, len(target))
+	case base64.RawURLEncoding.EncodeToString(sum[:]) != au.Query().Get("code_challenge"):
+		x.Failf("C27:"+site+":session-cookie:verifier", "packed verifier does not match the code_challenge sent to the IdP")
+	case st != state:
+		x.Failf("C27:"+site+":session-cookie:state", "packed state %q, state sent to the IdP %q", vfC27Clip(st), state)
+	case rt != "" && rt != returnTo:
+		x.Failf("C27:"+site+":session-cookie:return_to", "the cookie carries return_to %q but the request's _vgi_return_to was %q (request target %d bytes)", vfC27Clip(rt), vfC27Clip(returnTo), len(target))
+	case ou != fallback && !strings.HasPrefix(target, ou):
+		x.Failf("C27:"+site+":session-cookie:original_url", "the cookie carries original_url %q which is neither the request target %q (or a clipped prefix of it) nor the prefix root", vfC27Clip(ou), vfC27Clip(target))
+	}
+
+	// step 2: the IdP sends the browser back
+	r2 := srv.get(x, prefix+"/_oauth/callback?code=c0de&state="+url.QueryEscape(state), "Cookie", sessionCookieName+"="+cookie)
+	if r2 == nil {
+		return
+	}
+	if r2.StatusCode != http.StatusFound || vfC27Idp.tokenHits != 1 {
+		x.Failf("C27:"+site+":callback-did-not-complete", "status %d, token-endpoint hits %d", r2.StatusCode, vfC27Idp.tokenHits)
+		return
+	}
+	if len(vfC27Idp.unexpected) > 0 {
+		x.Failf("C27:"+site+":unexpected-outbound-request", "%v", vfC27Idp.unexpected)
+	}
+	k2 = srv.checkLocation(x, "callback", r2, true)
+	return early.StatusCode, k0, k2, r2.Header.Get("Location"), true
+}
+
+func vfC27Clip(s string) string {
+	if len(s) > 200 {
+		return s[:120] + "…(" + strconv.Itoa(len(s)) + " bytes)…" + s[len(s)-40:]
+	}
+	return s
+}
+
+// vfC27LongRequest: the same flow for page requests whose URL is long — around the 2048-byte
+// clip of the original URL and around / beyond the 65536-byte range of the cookie's uint16
+// length prefixes — with different filler bytes, before or after the _vgi_return_to parameter.
+func vfC27LongRequest(t *testing.T) {
+	pads := venum.QT([]int{0, 2100, 65600, 70000, 131100}, []int{0, 1900, 1990, 2048, 2100, 65000, 65530, 65536, 65600, 70000, 131100, 200000})
+	fillers := []string{"A", "0", "%41", "&x=1"}
+	returnTos := []string{"", "https://allowed.example/app?x=1", "https://evil.example/cb"}
+	pages := venum.QT([]string{""}, []string{"", "/describe"})
+	venum.Explore(t, venum.Cfg{Name: "long-request", Shardable: true}, func(x *venum.X) {
+		pad := pads[x.Choose(len(pads), "query-padding")]
+		filler := fillers[x.Choose(len(fillers), "filler")]
+		padFirst := x.Bool("padding-before-return_to")
+		returnTo := returnTos[x.Choose(len(returnTos), "return_to")]
+		prefix := x.Pick("prefix", "/vgi", "")
+		page := pages[x.Choose(len(pages), "page")]
+		vfC27Idp.reset()
+		srv := vfC27NewServer(x, prefix, []string{"https://allowed.example"}, "")
+		if srv == nil {
+			return
+		}
+		target := prefix + page
+		if target == "" {
+			target = "/"
+		}
+		padParam, rtParam := "", ""
+		if pad > 0 {
+			padParam = "&pad=" + strings.Repeat(filler, pad/len(filler)+1)[:pad]
+		}
+		if returnTo != "" {
+			rtParam = "&_vgi_return_to=" + url.QueryEscape(returnTo)
+		}
+		if padFirst {
+			target += "?keep=1" + padParam + rtParam
+		} else {
+			target += "?keep=1" + rtParam + padParam
+		}
+		x.Note("target %d bytes, filler %q, return_to %q", len(target), filler, returnTo)
+		early, k0, k2, loc2, ok := vfC27RunFlow(x, "long-request", srv, target, returnTo)
+		if !ok {
+			return
+		}
+		x.Outcome("pad=%d early=%d/%s callback=%s location-bytes=%d", pad, early, k0, k2, len(loc2))
+	})
+}
+
 func vfC27LoginFlow(t *testing.T) {
 	al := vfC27ReturnToAlphabet()
 	allowlists := [][]string{{"https://allowed.example"}, {"https://allowed.example:8443"}}
@@ -728,48 +849,13 @@ func vfC27LoginFlow(t *testing.T) {
 		}
 		target += "?keep=1&_vgi_return_to=" + url.QueryEscape(returnTo)
 
-		// step 0: already-authenticated visitor (auth cookie) with the same query
-		early := srv.get(x, target, "Accept", "text/html", "Cookie", authCookieName+"="+vfC27Token)
-		if early == nil {
+		early, k0, k2, loc2, ok := vfC27RunFlow(x, "login-flow", srv, target, returnTo)
+		if !ok {
 			return
 		}
-		k0 := srv.checkLocation(x, "early-redirect", early, early.StatusCode/100 == 3)
-
-		// step 1: unauthenticated browser GET → redirect to the IdP with a session cookie
-		r1 := srv.get(x, target, "Accept", "text/html")
-		if r1 == nil {
-			return
-		}
-		loc1 := r1.Header.Get("Location")
-		cookie, okCookie := vfC27SessionCookie(r1)
-		if r1.StatusCode != http.StatusFound || !strings.HasPrefix(loc1, vfC27AuthEP+"?") || !okCookie {
-			x.Failf("C27:login-flow:page-did-not-start-login", "GET %q: status %d Location %q cookie=%v", target, r1.StatusCode, loc1, okCookie)
-			return
-		}
-		srv.checkLocation(x, "login-redirect", r1, false)
-		au, err := url.Parse(loc1)
-		if err != nil {
-			x.Failf("C27:login-flow:authorize-url-unparseable", "%q: %v", loc1, err)
-			return
-		}
-		state := au.Query().Get("state")
-
-		// step 2: the IdP sends the browser back
-		r2 := srv.get(x, prefix+"/_oauth/callback?code=c0de&state="+url.QueryEscape(state), "Cookie", sessionCookieName+"="+cookie)
-		if r2 == nil {
-			return
-		}
-		if r2.StatusCode != http.StatusFound || vfC27Idp.tokenHits != 1 {
-			x.Failf("C27:login-flow:callback-did-not-complete", "status %d, token-endpoint hits %d", r2.StatusCode, vfC27Idp.tokenHits)
-			return
-		}
-		if len(vfC27Idp.unexpected) > 0 {
-			x.Failf("C27:login-flow:unexpected-outbound-request", "%v", vfC27Idp.unexpected)
-		}
-		k2 := srv.checkLocation(x, "callback", r2, true)
 		in := vfC27Classify(returnTo)
-		x.Outcome("input:%s/%s/allowed=%v early=%d/%s callback=%s echoed=%v", in.kind, in.scheme, vfC27Allowed(in, srv.allow), early.StatusCode, k0, k2,
-			strings.HasPrefix(r2.Header.Get("Location"), returnTo))
+		x.Outcome("input:%s/%s/allowed=%v early=%d/%s callback=%s echoed=%v", in.kind, in.scheme, vfC27Allowed(in, srv.allow), early, k0, k2,
+			strings.HasPrefix(loc2, returnTo))
 	})
 }
 
@@ -787,4 +873,5 @@ func TestVerif_C27(t *testing.T) {
 	vfC27CookieMutation(t)
 	vfC27Callback(t)
 	vfC27LoginFlow(t)
+	vfC27LongRequest(t)
 }
